@@ -148,7 +148,7 @@ fn serve() {
             let _ = writeln!(o, "S {}", serde_json::to_string(&agg).unwrap());
             let _ = o.flush();
         } else if let Some(rest) = l.strip_prefix("SPEC ") {
-            let spec: ScenarioSpec = match serde_json::from_str(rest) {
+            let spec: ScenarioSpec = match crate::spec::from_json_unbounded(rest) {
                 Ok(s) => s,
                 Err(e) => {
                     eprintln!("worker: bad SPEC: {}", e);
